@@ -222,6 +222,71 @@ func exhaustive(c *collector, kind string, setup, alphabet []op, depth int) {
 	rec()
 }
 
+// growth over every small arrangement of free bits: A (a bits) at 0, then B and C (and D) behind gaps
+// g1, g2, (g3) and a trailing gap; A grows by every amount up to the free space + 1. In a message and
+// in a group of a multiplexer (detached, or nested in an attached one).
+func growGaps(c *collector) {
+	gaps := []int{0, 1, 2, 4}
+	n := 0
+	for container := 0; container < 3; container++ {
+		for _, g1 := range gaps {
+			for _, g2 := range gaps {
+				for _, g3 := range gaps {
+					for _, four := range []bool{false, true} {
+						if four && container == 2 {
+							continue
+						}
+						a := 3
+						pos := []int{0, a + g1, a + g1 + 2 + g2}
+						end := pos[2] + 2 + g3
+						if four {
+							pos = append(pos, end)
+							end += 1 + g1
+						}
+						total := end
+						free := total - a - 2 - 2
+						if four {
+							free--
+						}
+						for d := 1; d <= free+1; d++ {
+							var ops []op
+							first := 0
+							switch container {
+							case 0: // message of exactly `total` bits rounded up to bytes: pad with the trailing space
+								ops = append(ops, mk("newmsg", 0, 0, (total+7)/8))
+							case 1:
+								ops = append(ops, mk("newmux", 2, 0, total))
+								first = 1
+							case 2:
+								ops = append(ops, mk("newmsg", 0, 0, 8), mk("newmux", 2, 0, 40), mk("newmux", 2, 0, total), mk("append", 0, 0, 0),
+									op{k: "muxinsert", a: 0, b: 1, z: 0, gids: []int{1}})
+								first = 2
+							}
+							sizes := []int{a, 2, 2, 1}
+							for i := range pos {
+								ops = append(ops, mk("newstd", 0, 0, sizes[i]))
+							}
+							for i, p := range pos {
+								switch container {
+								case 0:
+									ops = append(ops, mk("insert", 0, first+i, p))
+								case 1:
+									ops = append(ops, op{k: "muxinsert", a: 0, b: first + i, z: p, gids: []int{1}})
+								case 2:
+									ops = append(ops, op{k: "muxinsert", a: 1, b: first + i, z: p, gids: []int{0}})
+								}
+							}
+							ops = append(ops, mk("settype", first, 0, a+d))
+							n++
+							c.add(replay(ops, true), "grow-gaps", fmt.Sprintf("grow-gaps-%d", n))
+						}
+					}
+				}
+			}
+		}
+	}
+}
+
 // histories kept from earlier findings (always run first)
 var corpus = map[string][]string{
 	"c01": {
@@ -240,6 +305,15 @@ var corpus = map[string][]string{
 		"newmsg 1; newenum; newenumsig 0; newstd 4; append 0 0; append 0 1; setminsize 0 4",
 		"newmsg 1; newenum; setminsize 0 2; newenumsig 0; newenumsig 0; newstd 3; append 0 0; append 0 1; append 0 2; addvalue 0 4",
 		"newmsg 1; newenum; setminsize 0 2; newenumsig 0; newenumsig 0; newstd 3; append 0 0; append 0 1; append 0 2; addvalue 0 1; updateindex 0 4",
+		// a message sent on a CAN 2.0A bus: sizes above 8 bytes are refused and change nothing (the payload
+		// stays full), smaller ones follow the layout
+		"newmsgbus 8; newstd 32; newstd 32; newstd 8; newstd 8; append 0 0; append 0 1; resizebus 0 16 8; append 0 2; insert 0 3 80; shr 0 1 5; resizebus 0 9 8; insert 0 2 64; resizebus 0 4 8; remove 0 1; resizebus 0 4 8; resizebus 0 8 8; insert 0 1 32",
+		"newmsgbus 2; newstd 8; append 0 0; resizebus 0 64 8; resizebus 0 8 8; resizebus 0 9 8; resizebus 0 -1 8; resizebus 0 0 8; resizebus 0 1 8; newstd 8; append 0 1",
+		// growth with two followers and unevenly spread free bits
+		"newmsg 2; newstd 4; newstd 4; newstd 4; insert 0 0 0; insert 0 1 6; insert 0 2 10; settype 0 8",
+		"newmsg 2; newstd 4; newstd 4; newstd 4; insert 0 0 0; insert 0 1 4; insert 0 2 12; settype 0 8",
+		// renames: top-level, multiplexed (attached and detached), then removal and re-insertion
+		"newmsg 8; newmux 2 16; newstd 4; newstd 4; append 0 0; muxinsert 0 1 0 0; append 0 2; rename 1; rename 2; rename 0; muxremove 0 1; muxinsert 0 1 4 1; remove 0 0; rename 1; muxclearall 0",
 	},
 	"c07": {
 		// D23
@@ -252,6 +326,15 @@ var corpus = map[string][]string{
 		"newmux 2 8; newstd 2; newstd 2; newstd 2; muxinsert 0 1 0 -; muxinsert 0 2 2 -; muxinsert 0 3 4 1; settype 1 3",
 		// the pinned example of Test_MultiplexerSignal_InsertSignal
 		"newmsg 8; newmux 4 16; append 0 0; newstd 4; newstd 4; newstd 4; newstd 4; muxinsert 0 1 8 -; muxinsert 0 2 0 0,2; muxinsert 0 3 4 0; muxinsert 0 4 12 0; muxinsert 0 3 4 2; muxinsert 0 3 4 2; muxclearall 0",
+		// growth with two followers and unevenly spread free bits, in the groups of a nested attached multiplexer
+		"newmsg 8; newmux 2 32; newmux 2 16; append 0 0; muxinsert 0 1 0 0; newstd 4; newstd 4; newstd 4; newstd 4; newstd 4; newstd 4; " +
+			"muxinsert 1 2 0 0; muxinsert 1 3 6 0; muxinsert 1 4 10 0; muxinsert 1 5 0 1; muxinsert 1 6 4 1; muxinsert 1 7 12 1; settype 2 8; settype 5 8",
+		// renames of multiplexed signals (attached / nested / detached), then removal, clearing, detaching
+		"newmsg 8; newmux 2 32; newmux 2 8; newstd 4; newstd 4; newstd 2; append 0 0; muxinsert 0 3 0 -; muxinsert 0 1 4 1; muxinsert 1 5 0 0; muxinsert 0 4 4 0; " +
+			"rename 3; rename 5; rename 1; rename 4; muxremove 0 3; muxinsert 0 3 16 0; muxcleargroup 0 0; rename 5; remove 0 0; rename 5; rename 1; muxclearall 0",
+		"newmux 2 8; newstd 2; newstd 2; muxinsert 0 1 0 -; muxinsert 0 2 2 1; rename 1; rename 2; muxremove 0 1; rename 1; muxinsert 0 1 4 0",
+		// a bus message holding a multiplexer: refused resize, then edits
+		"newmsgbus 8; newmux 2 56; append 0 0; newstd 8; resizebus 0 16 8; append 0 1; insert 0 1 64; muxinsert 0 1 0 -; resizebus 0 7 8",
 	},
 }
 
@@ -309,6 +392,8 @@ func main() {
 	for i, s := range corpus[mode] {
 		c.add(replay(parseOps(s), true), "corpus", fmt.Sprintf("corpus-%d", i))
 	}
+
+	growGaps(c)
 
 	nRandom, nOps, depth := 400, 30, 3
 	if mode == "c07" {
